@@ -389,6 +389,9 @@ def make_write_data(spec: dict, b: Built, scratch: str):
         with h5py.File(path, 'w') as f:
             for key, arr in items:
                 f.create_dataset(key.lstrip('/'), data=np.ascontiguousarray(arr), dtype=arr.dtype)
+        if w.get('paths_as') == 'Path':
+            import pathlib
+            return pathlib.Path(path)
         return path
     raise ValueError(source)
 
@@ -412,6 +415,9 @@ def do_write(spec: dict, b: Built, path: str, scratch: str, data='__auto__', **o
         b.write_data = data
         if data is not None:
             kwargs['data'] = data
+        if w.get('paths_as') == 'Path':
+            import pathlib
+            path = pathlib.Path(path)       # the output file name as a path object
         if w.get('hc'):
             # the write (only) happens in high-compatibility mode
             from dliswriter import high_compatibility_mode
